@@ -527,6 +527,7 @@ func execMvcc(intents []string, st *Stats) (final, outs, oracle []string) {
 			emit("dump", s.dump())
 			s.judgeStructure(fail)
 			s.judgeStable("close+open", pre, fail)
+			s.judgeMarks("Close+Open", fail)
 		case "ban":
 			// ban <ns>: DB.BanNamespace. The marker key !badger!banned<ns> is written at version 1
 			// through the write channel like any entry (it is part of the stored history).
@@ -743,6 +744,7 @@ func execMvcc(intents []string, st *Stats) (final, outs, oracle []string) {
 			s.emitEventsX(emit, fail, "", true)
 			// normal mode: the timestamp just allocated (the harness is the only committer)
 			emit(line, s.commitDone(tx, cts, err, badger.VerifNextTxnTs(s.db)-1, conflictDue, fail))
+			s.judgeMarks("Commit", fail)
 		case "batchcommit":
 			// batchcommit id:cts ...: the write pipeline is parked (VerifHoldWriter) while the commits
 			// are issued asynchronously (CommitWith / CommitAt with a callback); the first one is being
@@ -876,6 +878,22 @@ func execMvcc(intents []string, st *Stats) (final, outs, oracle []string) {
 
 // judgeGet: C01/C04/C06/C33/C36 — a Get equals the newest committed write at or below the
 // read timestamp (own pending writes layered on top), absent when deleted or expired.
+// judgeMarks (C34): in normal mode the commit watermark never reports a timestamp that has not been
+// handed out yet (doneUntil < nextTxnTs), and the read watermark never runs ahead of it.
+func (s *mvSess) judgeMarks(what string, fail func(string, string)) {
+	if s.managed || s.db == nil {
+		return
+	}
+	badger.VerifSyncMarks(s.db)
+	st := badger.VerifOracleOf(s.db).State()
+	if st.TxnDoneUntil >= st.NextTxnTs {
+		fail("C34-txnmark-ahead-of-next", fmt.Sprintf("after %s txnMark.DoneUntil=%d although timestamp %d has not been handed out yet", what, st.TxnDoneUntil, st.NextTxnTs))
+	}
+	if st.ReadDoneUntil >= st.NextTxnTs {
+		fail("C34-readmark-ahead-of-next", fmt.Sprintf("after %s readMark.DoneUntil=%d, next timestamp %d", what, st.ReadDoneUntil, st.NextTxnTs))
+	}
+}
+
 // isBanned: the key carries a namespace (a complete 8-byte field at NamespaceOffset followed by at
 // least one more byte, as DB.isBanned has it) and that namespace was banned in this session.
 func (s *mvSess) isBanned(key []byte) bool {
@@ -1378,6 +1396,7 @@ func (s *mvSess) dropAll(emit func(string, string), fail func(string, string)) {
 	s.droppedAll = true
 	badger.VerifTakeEvents()
 	emit("dump", s.dump())
+	s.judgeMarks("DropAll", fail)
 	for _, k := range s.spec.keys() {
 		if r := s.readAt([]byte(k), math.MaxUint64); r != "absent" {
 			fail("C29-dropall-survivor", fmt.Sprintf("after DropAll key %s reads %q", hx([]byte(k)), r))
